@@ -414,6 +414,14 @@ ANCHORED_CASES = [
     ("&k top:\n  in: &v x\n  o: *v\n",
      ["&k", "&k.in", "top[&v][parent()]", "top[&v][parent(2)]",
       "/&k[&v][parent()]"]),
+    # has_child(&anchor): records of an Array-of-Hashes (with null elements
+    # before, between and after them) and of a Hash that hold an anchored
+    # or aliased child
+    ("s:\n  - ~\n  - n: &d db\n  - ~\n  - m: *d\n  - o: 1\n  - ~\n"
+     "h:\n  p:\n    n: *d\n  q:\n    z: 2\n",
+     ["s[has_child(&d)]", "/s[has_child(&d)]", "s[!has_child(&d)]",
+      "s[has_child(&d)].*", "h.*[has_child(&d)]", "/h/*[has_child(&d)]",
+      "h.*[!has_child(&d)]", "h[has_child(&d)]", "s[has_child(&d)][parent()]"]),
 ]
 
 
